@@ -15,6 +15,10 @@ THEOREMS = [
     'AbacusVerif.Catalog.decode_commutes',
     'AbacusVerif.Catalog.lc_slices',
     'AbacusVerif.Catalog.zipper_inbounds',
+    'AbacusVerif.Catalog.wf_iff',
+    'AbacusVerif.Catalog.zipper_index_rule',
+    'AbacusVerif.Catalog.table_compaction',
+    'AbacusVerif.Catalog.uint32_sum_wraps',
 ]
 DRIVER = 'drv_c01'
 RULE = ('one evaluation = one load of a synthetic catalog tree by the real CompaSOHaloCatalog, checked (a) by the '
@@ -26,7 +30,7 @@ TRUSTED = ['catgen.py: the arrays it keeps in memory are the raw records; asdf /
            'unpacked columns (pos, vel, pid, lagr_*, tagged, density) are compared against bitpacked.unpack_rvint / '
            'unpack_pids applied to the expected raw words; those decoders are tied to Lean by C04',
            'the numba semantics encoded in Model/C01.lean (clipped slices, length-checked slice assignment)']
-ASSUMPTIONS = ['npout + npout_merge < 2^32 per halo (uint32 columns); npstart*_merge non-negative']
+ASSUMPTIONS = ['npstart*_merge non-negative (int64 column modelled as Nat)']
 
 
 def draw_case(ctx, rng, recipe, truth):
@@ -119,9 +123,25 @@ def boundary_cases(rng):
     return out
 
 
+def uint32_probe(ctx):
+    """`npoutX + npoutX_merge` on uint32 astropy columns wraps modulo 2^32 (Model: cnt32); the cumsum then runs
+    in uint64 and `np.diff(...).astype(uint32)` wraps again"""
+    from astropy.table import Table
+    pairs = [(0, 0), (3, 4), (2 ** 32 - 1, 0), (2 ** 32 - 1, 1), (2 ** 32 - 1, 2 ** 32 - 1), (2 ** 31, 2 ** 31), (2 ** 31, 2 ** 31 - 1)]
+    t = Table({'npoutA': np.array([a for a, _ in pairs], dtype=np.uint32),
+               'npoutA_merge': np.array([b for _, b in pairs], dtype=np.uint32)})
+    col = t['npoutA']
+    real = [int(v) for v in (col + t['npoutA_merge'])]
+    model = [int(x) for x in ctx.driver.query(['cnt32 %d %d' % p for p in pairs])]
+    ctx.count('uint32-sum-probes', len(pairs))
+    if real != model:
+        ctx.disagree('uint32 column sum', {'pairs': pairs}, model, real)
+
+
 def run(ctx):
     rng = ctx.rng
     pool = cx.Pool(ctx)
+    uint32_probe(ctx)
     for c in corpus_cases():
         ctx.count('corpus')
         run_case(ctx, pool, c)
